@@ -16,6 +16,16 @@ def plan(tier, seed):
     jobs.append(ch("C02", H, "h_levels_no_nulls", t, ["writer.make_definitions", "core.skip_definition_bytes"]))
     jobs.append(dict(name="C02-lemma-dict-index-framing", kind="pyfunc", timeout=300,
                      payload=dict(func="vf.pyshim.lemmas:dict_index_framing")))
+    # B2: wire conformance of every metadata structure the writer emits (footer, row groups, chunks, page headers):
+    # the lifted serialiser must produce the token stream of the reference compact codec generated from the IDL
+    from . import thrift_struct
+    emitted = ("FileMetaData", "RowGroup", "ColumnChunk", "ColumnMetaData", "SchemaElement", "KeyValue", "Statistics",
+               "PageHeader", "DataPageHeader", "DataPageHeaderV2", "DictionaryPageHeader", "PageEncodingStats")
+    for s in emitted:
+        j = ch("C02", thrift_struct.F, "h_roundtrip", 200 if tier == "quick" else 900, thrift_struct.FUN,
+               shape=dict(struct=s), env=dict(VERIF_STRUCT=s))
+        j["name"] += "[%s]" % s
+        jobs.append(j)
     extra = dict(
         explanation="The real writer.write_column runs under CrossHair (z3) with row count, rows per page, per-page "
                     "null counts, level/value/compressed/header lengths and the start offset symbolic; the oracle "
